@@ -316,7 +316,7 @@ theorem pkgParseStream_spec (line : Bytes) (s : Stream) (h : specLine line = som
                   have hbne : blocks.map (·.text) ≠ [] := by simpa using hok.1
                   rw [if_neg hbne, pkgBlocks_spec blocks hr2 hb1]
                   simp only []
-                  rw [if_neg hftne, offsetsFrom_eq_plain blocks 0 (by omega), plainOffsets_last,
+                  rw [if_neg (by omega), if_neg hftne, offsetsFrom_eq_plain blocks 0 (by omega), plainOffsets_last,
                     pkgFileToks_spec name hname (0 + streamLen blocks) (by omega) ftoks files hfiles
                       (by intro f hf; have := hinside f hf; omega)]
                   simp [toPStream, offsetsFrom_eq_plain blocks 0 (by omega)]
